@@ -54,10 +54,21 @@ func InitGenesis(ctx context.Context, k keeper.Keeper, genState types.GenesisSta
 	}
 
 	// Set all the bid
+	// The number of matched bids of a batch auction (MatchedBidsLen) is not part of the
+	// genesis state; it always equals the number of bids flagged as matched, so restore it
+	// from the flags. Otherwise an auction imported in the middle of its extended rounds
+	// would compare against zero at its next end time.
+	matchedBidsLen := map[uint64]int64{}
 	for _, elem := range genState.BidList {
-		_, err := k.Auction.Get(ctx, elem.AuctionId)
+		auction, err := k.Auction.Get(ctx, elem.AuctionId)
 		if errors.Is(err, collections.ErrNotFound) {
 			return fmt.Errorf("bid auction %d is not found", elem.AuctionId)
+		}
+		if err == nil && auction.GetType() == types.AuctionTypeBatch && elem.IsMatched {
+			matchedBidsLen[elem.AuctionId]++
+			if err := k.SetMatchedBidsLen(ctx, elem.AuctionId, matchedBidsLen[elem.AuctionId]); err != nil {
+				return err
+			}
 		}
 
 		bidID, err := k.GetNextBidIdWithUpdate(ctx, elem.AuctionId)
